@@ -361,7 +361,7 @@ PROPS["C04"] = {
     "harnesses": [
         {"pkg": LQ, "func": "VerifH_C04_resume", "replay_tries": 3, "replay_timeout_s": 60, "opts": {"sleep_env": True, "map_order_all": False, "max_steps": 20000000, "max_wall_s": 900, "no_preempt": True},
          "covers": ["in-flight-at-stop", "finished-before-stop", "killed", "stopped-gracefully", "unfinished-url", "second-run-stopped", "unparsable-row", "time-between-freeze-and-stop"]},
-        {"pkg": LQ, "func": "VerifH_C04_resume3", "thorough_only": True, "replay_tries": 3, "replay_timeout_s": 60, "opts": {"sleep_env": True, "map_order_all": False, "max_steps": 20000000, "max_wall_s": 1800, "no_preempt": True},
+        {"pkg": LQ, "func": "VerifH_C04_resume3", "thorough_only": True, "replay_tries": 3, "replay_timeout_s": 60, "opts": {"sleep_env": True, "map_order_all": False, "max_steps": 20000000, "max_wall_s": 3000, "no_preempt": True},
          "covers": ["in-flight-at-stop", "finished-before-stop", "killed", "stopped-gracefully", "unfinished-url", "second-run-stopped"]},
     ],
 }
